@@ -200,29 +200,6 @@ Proof. intros _. reflexivity. Qed.
 
 Definition nodata (k : prim_kind) : bool := match k with KBinaryData | KID3Frames => true | _ => false end.
 
-(* -------- kinds proved as final field only *)
-Definition last_covered (k : prim_kind) : bool :=
-  match k with
-  | KInteger | KBinaryData | KID3Frames => true
-  | _ => self_delim k
-  end.
-
-Lemma prim_last c k v : last_covered k = true -> pvalid c k v = true ->
-  exists b, pwrite c k v = Ok b /\ (nodata k = false -> b <> []) /\ pread c k b = Ok (v, []).
-Proof.
-  intros Hc Hv. destruct (self_delim k) eqn:Hsd.
-  - destruct (prim_sd c k v Hsd Hv) as (b & Hw & Hn & Hr). exists b. split; [exact Hw|split; [intros _; exact Hn|]].
-    rewrite <- (app_nil_r b) at 1. apply Hr. apply rest_ok_nil.
-  - destruct k; try discriminate; try (cbn [last_covered self_delim] in *; congruence); cbn [prim_valid] in Hv.
-    + (* KInteger *) destruct v as [z| | |]; try discriminate. apply Z.leb_le in Hv.
-      destruct (int_to_str_grow z 4 Hv) as [Hw Hb]; [lia|].
-      exists (be_encode (Z.to_nat (Z.max (nbytes z) 4)) z). cbn [prim_write as_int rbind]. rewrite Hw.
-      split; [reflexivity|split; [intros _; apply be_encode_nonnil; lia|]]. cbn [prim_read].
-      rewrite be_decode_encode; [reflexivity|]. rewrite Z2Nat.id by lia. lia.
-    + (* KBinaryData *) destruct v as [| |b|]; try discriminate. exists b. split; [reflexivity|split; [intros E; discriminate|reflexivity]].
-    + (* KID3Frames *) destruct (sub_roundtrip v Hv) as (b & Hw & Hr). exists b. split; [exact Hw|split; [intros E; discriminate|exact Hr]].
-Qed.
-
 (* -------- MultiSpec of encoded-text kinds *)
 Definition wflat (c : rctx) (F : list (prim_kind * value)) : result (list Z) :=
   rconcat (fun kv : prim_kind * value => prim_write subw c (fst kv) (snd kv)) F.
